@@ -78,7 +78,18 @@ class Job:
             t = c.decode("utf-8", "replace").replace("\r\n", "␍\n").replace("\r", "␍\n")
             out.append("--- %s\n%s" % (fn, t))
         s = "\n".join(out)
-        return s if len(s) <= limit else s[:limit] + "\n... (%d bytes)" % len(s)
+        if len(s) <= limit:
+            return s
+        tail = ""
+        if self.status == "err":
+            # keep the neighbourhood of the diagnostic: the classification of a finding reads it
+            try:
+                fn, ln = C.unhx(self.d["file"]).decode(), int(self.d["line"])
+                ls = self.files[fn].decode("utf-8", "replace").replace("\r\n", "␍\n").replace("\r", "␍\n").split("\n")
+                tail = "\n... around the diagnostic (%s line %d):\n%s" % (fn, ln, "\n".join(ls[max(0, ln - 14):ln + 2]))
+            except Exception:
+                tail = ""
+        return s[:limit] + "\n... (%d bytes)" % len(s) + tail
 
 
 def run_jobs(jobs):
@@ -306,6 +317,7 @@ def main(argv=None):
         p0 = lower(m)
         case = {"seed": seed, "i": i, "model": m, "size": size}
         cases.append(case)
+        snapshot = json.dumps(m.to_json(), sort_keys=True)
         # replay round trip
         if i % 10 == 0:
             if ApiModel.from_json(json.dumps(m.to_json())).to_json() != m.to_json() or \
@@ -441,6 +453,13 @@ def main(argv=None):
             case["faults"].append(j)
             jobs.append(j)
             dist["faults"][via] += 1
+        # no transformation may write into the model it was given: the later renderings of this model (blame runs) rely on it
+        if json.dumps(m.to_json(), sort_keys=True) != snapshot:
+            selfcheck["FAILED model left unchanged by the transformations"] += 1
+            rep.add("generator", "a transformation modified the model it was given", seed, "")
+            case["model"] = m = ApiModel.from_json(snapshot)
+        else:
+            selfcheck["ok model left unchanged by the transformations"] += 1
     t_gen = time.time() - t0
     run_jobs(jobs)
     t_run = time.time() - t0 - t_gen
